@@ -46,6 +46,14 @@ SINGLE = [
     ("hist", "chi2", "normal", ["y-abs"]),
     ("hist", "gauss_approximation_pointwise", "normal", ["y-abs"]),
     ("unbinned", "nll", "normal", []),
+    # the fast (Cholesky) variants and the Gaussian approximation with a correlated source: every cost family x {qr, cholesky} x {diagonal, correlated}
+    ("indexed", "gauss_approximation_covariance_fast", "idx2", ["y-abs-rho"]),
+    ("indexed", "gauss_approximation", "idx2", ["y-abs-rho"]),
+    ("hist", "gauss_approximation_covariance_fast", "normal", ["y-abs-rho"]),
+    ("hist", "gauss_approximation", "normal", ["y-abs", "y-abs-rho"]),
+    ("indexed", "chi2_covariance_fast", "idx2", ["y-abs-rho", "y-rel"]),
+    ("xy", "chi2_fast", "lin", ["y-abs"]),
+    ("xy", "chi2_pointwise", "expo", ["y-abs", "x-abs"]),
 ]
 MULTI = [["xy_ab"], ["xy_ab", "xy_ac"], ["xy_ab", "idx_ad"], ["xy_ab", "xy_ac", "xy_bc"], ["xy_ab", "hist"], ["xy_ab_x", "xy_ac"], ["xy_ab_noerr", "xy_ac"], ["xy_ac", "xy_ab_relm"]]
 
